@@ -1,9 +1,13 @@
 package mocrelay
 
-import "sync"
+import (
+	"sync"
+	"sync/atomic"
+)
 
 func init() {
 	vpHarnesses["vpH_C15_schedules"] = vpH_C15_schedules
+	vpHarnesses["vpH_C15_schedwitness"] = vpH_C15_schedwitness
 }
 
 // C15 over schedules (bounded): two writers and one reader race on one store; the
@@ -139,5 +143,43 @@ func vpH_C15_schedules() {
 			}
 		}
 	}
+	vpReach("end")
+}
+
+// Vacuity guard for the schedule exploration itself: a deliberately racy counter (atomic
+// load, then atomic store of the incremented value, in two goroutines). With one
+// preemption the lost update must be reachable, and so must the serial outcome; the check
+// requires both labels (checks.json "reach"), so a scheduler that silently stopped
+// interleaving would make the check INCONCLUSIVE instead of passing everything.
+func vpH_C15_schedwitness() {
+	if !vpSymbolic() {
+		vpReach("end")
+		return
+	}
+	var x atomic.Int64
+	var mu sync.Mutex
+	guarded := 0
+	vpPreempt(1)
+	var wg sync.WaitGroup
+	wg.Add(2)
+	for i := 0; i < 2; i++ {
+		go func() {
+			defer wg.Done()
+			v := x.Load()
+			x.Store(v + 1)
+			mu.Lock()
+			g := guarded
+			guarded = g + 1
+			mu.Unlock()
+		}()
+	}
+	wg.Wait()
+	vpPreempt(0)
+	if x.Load() == 1 {
+		vpReach("lost-update")
+	} else {
+		vpReach("serial")
+	}
+	vpAssert(guarded == 2, "C15.schedwitness-mutex-protects")
 	vpReach("end")
 }
